@@ -4,7 +4,8 @@ import ast
 import z3
 
 from .sym import (V, Py, is_py, NONE, TPy, Unsupported, mk_int, mk_bool, fresh, fresh_name, truthy, coerce,
-                  concrete_int)
+                  concrete_int, py_len)
+from . import lists as L
 from .types import (TInt, TBool, TNone, TBytes, TStr, TRef, TPkt, TOpt, TList, TSet, TDict, TTuple, TAny)
 from .core import PyExc, ExcVal, PathEnd, ReturnEx, BreakEx, ContinueEx, exc_is_subclass, EXC_ALIAS
 
@@ -70,6 +71,12 @@ class StmtMixin:
 
     def assign(self, tgt, val):
         if isinstance(tgt, ast.Name):
+            fsx = self.frame.fspec
+            if fsx is not None and tgt.id in fsx.d.get('locals', {}) and val.t is not TPy or \
+                    (fsx is not None and tgt.id in fsx.d.get('locals', {}) and val.py and val.py[0] in ('emptydict', 'kwdict')):
+                # a local with a declared (widened) type, e.g. a dict filled in a loop
+                from .types import parse_type
+                val = coerce(val, parse_type(fsx.d['locals'][tgt.id]))
             if val.lval is not None and val.lval[0] == 'field':
                 nv = V(val.t, val.z, val.lval, val.py)
             else:
@@ -159,17 +166,16 @@ class StmtMixin:
             if base.py == ('emptydict',):
                 t = TDict(idx.t, val.t)
                 base = coerce(base, t)
-            k = coerce(idx, t.k)
-            v = coerce(val, t.v)
+            k = self.key_of(idx, t.k)
+            v = self.key_of(val, t.v)
             new = V(t, t.mk(z3.Store(t.dom(base.z), k.z, True), z3.Store(t.map(base.z), k.z, v.z)), lval=base.lval)
             self.store_back(base_expr, base, new)
             return
         if isinstance(t, TList):
-            n = z3.Length(base.z)
+            n = L.l_len(t, base.z)
             self.nonneg_or_unsupported(idx.z, 'index')
             self.need(idx.z < n, 'IndexError')
-            new = V(t, z3.Concat(z3.Extract(base.z, 0, idx.z), z3.Unit(coerce(val, t.elem).z),
-                                 z3.Extract(base.z, idx.z + 1, n - idx.z - 1)), lval=base.lval)
+            new = V(t, L.l_set_at(t, base.z, idx.z, coerce(val, t.elem).z), lval=base.lval)
             self.store_back(base_expr, base, new)
             return
         if is_py(base, 'kwdict') and idx.py and idx.py[0] == 'strlit':
@@ -200,7 +206,7 @@ class StmtMixin:
                 idx = self.ev(tgt.slice)
                 t = base.t
                 if isinstance(t, TDict):
-                    k = coerce(idx, t.k)
+                    k = self.key_of(idx, t.k)
                     self.need(z3.Select(t.dom(base.z), k.z), 'KeyError')
                     new = V(t, t.mk(z3.Store(t.dom(base.z), k.z, False), t.map(base.z)), lval=base.lval)
                     self.store_back(tgt.value, base, new)
@@ -390,12 +396,12 @@ class StmtMixin:
         def setup():
             i = z3.Int(fresh_name('i'))
             self.frame.locals[idx_name] = mk_int(i)
-            self.assume(z3.And(i >= 0, i <= z3.Length(seq.z)))
+            self.assume(z3.And(i >= 0, i <= py_len(seq)))
 
         def cond():
             i = self.frame.locals[idx_name].z
-            if self.branch(i < z3.Length(seq.z)):
-                el = V(seq.t.elem, seq.z[i])
+            if self.branch(i < py_len(seq)):
+                el = V(seq.t.elem, L.l_get(seq.t, seq.z, i)) if isinstance(seq.t, TList) else V(TInt, seq.z[i])
                 self.assume_wf(el)
                 self.assign(s.target, self.iter_elem(it, el))
                 return True
@@ -422,7 +428,7 @@ class StmtMixin:
         if is_py(it, 'enumerate'):
             return self.iter_seq(it.py[1])
         if t is TBytes:
-            return V(TList(TInt), it.z)
+            return V(TBytes, it.z)
         raise Unsupported('for over %s' % (it.py[0] if t is TPy else t))
 
     def iter_elem(self, it, el):
